@@ -41,6 +41,7 @@ struct Profile {
   bool prune_empty_dirs = false;        // some commands end by deleting every empty directory (-j1 builds)
   bool generator_restats_log = false;   // generator commands may end with `ninja -t restat` (log replaced mid-build)
   bool signal_at_syscall = false;      // half of the interrupts arrive at a syscall where ninja is busy, not while it waits
+  bool backdating_cmds = false;        // a third of the ordinary commands give their outputs the time of their newest input (cp -p, install -p, tar)
   bool multi_process_cmds = false;     // half of the commands are a shell plus a program in the same process group
   bool cmd_interrupt_status = false;   // failing commands may end with status 130 / die from SIGINT, SIGTERM, SIGHUP
   bool invalid_dyndep = false;      // a third of the runs: producers write damaged dyndep files (outside C11's own single-world runs)
